@@ -29,6 +29,9 @@ def tasks(ctx, quick):
              "v": rng.choice([0.0, 0.25, 0.5, 1.0, rng.random()])}
         if i % 4 == 2:
             t["kwdens"] = True
+        if not with_molecule and i % 2 == 1 and not any(x[0] == 0 for x in comp):
+            t["T"] = "T2"             # a table whose owner changed masses; the functions read the text with table=T2
+            t["text"] = True
         if i % 5 == 1:
             t["vector"] = rng.choice([3, 3, 2, 4])            # D2O fractions given as one array (a contrast series)
         t["natural_density" if i % 2 else "density"] = rng.choice([1.0, 1.35, 0.9, 2.2, rng.uniform(0.5, 5)])
